@@ -38,6 +38,9 @@ def scenario(rng, flavour):
     if flavour == "C02":
         mix["w_txn"] = 2.5
     strat_kw = {"max_live_trade_count": rng.choice([1, 3, 30]), "max_order_exposure": 500, "max_selection_exposure": 5000}
+    if rng.random() < 0.4:
+        # the market-level limit is optional (None by default): with it the controls walk more of the blotter
+        strat_kw["max_market_exposure"] = rng.choice([20000, 20000, 15.0])
     n_strat = rng.choice([1, 1, 2])
     clients = [{"bpe": True}]
     if flavour == "C10":
